@@ -245,6 +245,20 @@ pub fn gen_base(rng: &mut Rng, m: Meth, class: ProbClass, entry: Entry) -> Scena
             *a *= s;
         }
     }
+    if class != ProbClass::LinHom && rng.bool(0.03) {
+        // zero error scale: pure relative tolerance (atol = 0) on a component that starts at exactly
+        // zero. Valid input; the solvers answer it with an immediate honest failure (the weighted
+        // norms divide by zero) - which is exactly the kind of branch nobody exercises.
+        sc.atol = vec![0.0];
+        let n = sc.y0.len();
+        if n >= 2 && rng.bool(0.7) {
+            sc.y0[n - 1] = 0.0;
+        } else {
+            for y in sc.y0.iter_mut() {
+                *y = 0.0;
+            }
+        }
+    }
     if m.implicit() && class != ProbClass::LinHom && rng.bool(0.04) {
         // singular-by-construction start: y' = lambda*y with first_step chosen so that the very
         // first iteration matrix is exactly singular (BDF: I - (h/alpha_1)*J with alpha_1 = 1.185;
